@@ -222,6 +222,7 @@ def run(ctx):
         words = ["query", "two words", "a+b", "a&b=c", "100%", "caf\xe9", "\udcff\udcfe", "x?y#z", "q'q\"<>", "%41", "+", "a  b", "tab\there"]
         for _ in range(ctx.n(40, 600)):
             words.append("".join(ctx.rng.choice(["a", " ", "+", "%", "&", "=", "?", "#", "\xe9", "\udcff", "2", "0", "/", "\\", "'", '"', "<"]) for _ in range(ctx.rng.randint(1, 8))))
+        segmented = [0, ctx.n(60, 600)]      # requests delivered in pieces: count, budget
         for w in words:
             if w != w.strip() or not w:
                 continue   # outer blanks are stripped by Gopher's field handling (the property's NoOuterBlank)
@@ -238,6 +239,24 @@ def run(ctx):
                     sel, sr, r = pyg.parse_via_recorder(reqs.build(p, "/s", search=w, literal_query=True), rc, reqs.TLS[p])
                     seen["gemini(literal sub-delims)"] = sr
                     res.evaluations += 1
+            # the same requests arriving in pieces (cut inside the request line, at its end, inside what follows it)
+            if len(w.encode("utf-8", "surrogateescape")) >= 3 and segmented[0] < segmented[1]:
+                for p in ("spartan", "http", "gopher"):
+                    if p == "gopher" and ("\t" in w or w[0] in "+$" or w == "!"):
+                        continue
+                    rq = reqs.build(p, "/s", search=w)
+                    eol = rq.find(b"\n") + 1
+                    for cuts in ([[eol + max(1, (len(rq) - eol) // 2)]] if len(rq) > eol + 1 else []) + [[max(1, eol // 2)], [eol], [3, eol, len(rq) - 1]]:
+                        cuts = sorted({c for c in cuts if 0 < c < len(rq)})
+                        if not cuts:
+                            continue
+                        segmented[0] += 1
+                        sel, sr, r = pyg.parse_via_recorder(rq, rc, reqs.TLS[p], cuts=cuts)
+                        res.evaluations += 1
+                        if sr != seen.get(p):
+                            res.violation("C06:search-differs:segmented:" + p, "a search string reaches the handler differently when the request arrives in pieces",
+                                          {"search": w, "protocol": p, "cuts": cuts, "request": rq[:120]}, observed=sr, required=seen.get(p),
+                                          replay={"search": w, "cuts": cuts, "protocol": p})
             if re.search(r"[^A-Za-z0-9]", w):
                 res.nontrivial.add(("search", w))
             bad = {p: v for p, v in seen.items() if v != w}
@@ -255,6 +274,12 @@ def run(ctx):
 
 def replay(data):
     rp = data["violation"]["replay"]
+    if "search" in rp and "cuts" in rp:
+        rc = pyg.recorder_config()
+        rq = reqs.build(rp["protocol"], "/s", search=rp["search"])
+        print(rp["protocol"], "whole:", pyg.parse_via_recorder(rq, rc, reqs.TLS[rp["protocol"]])[:2])
+        print(rp["protocol"], "in pieces", rp["cuts"], ":", pyg.parse_via_recorder(rq, rc, reqs.TLS[rp["protocol"]], cuts=rp["cuts"])[:2])
+        return 0
     if "search" in rp:
         rc = pyg.recorder_config()
         for p in ("gopher", "gopherp", "http", "wap", "gemini", "spartan"):
